@@ -5,12 +5,12 @@ C34 — importing then exporting a git commit reproduces it.
 `exp_imp_id_partial`: for EVERY commit record (any field values, any number of
 parents / mergetags / extra headers, any of the modelled encodings, strict or
 not) that `import_commit` accepts and that is `Canon`, `export_commit` of the
-imported revision is exactly the original record.  `Canon` excludes the four
-input families on which the unchanged code does not round-trip (each has a
-`_witness` theorem and is reproduced on the real code by the check):
-missing message, `encoding false`, person identifiers that are not a fixed
-point of `fix_person_identifier`, extra-header values containing a line
-boundary — plus three well-formedness facts of parsed commits (40-byte parent
+imported revision is exactly the original record.  `Canon` excludes the three
+input families on which the code does not round-trip (each has a `_witness`
+theorem and is reproduced on the real code by the check): missing message,
+person identifiers that are not a fixed point of `fix_person_identifier`,
+extra-header values with an embedded newline (continuation lines) — plus three
+well-formedness facts of parsed commits (40-byte parent
 shas, non-empty gpgsig if present, only recognised extra headers).
 Record level: dulwich's (de)serialisation and SHA-1 are external, so "equal
 record" is what the model can say about "identical bytes".
@@ -20,7 +20,6 @@ namespace BreezyVerif.C34
 /-- the accepted-and-round-trippable domain -/
 def Canon (c : Commit) : Bool :=
   c.message.isSome &&
-  decide (c.encoding ≠ some (bs "false")) &&
   decide (fixPerson c.committer = some c.committer) &&
   decide (fixPerson c.author = some c.author) &&
   decide (firstAuthor c.author = c.author) &&
@@ -37,7 +36,7 @@ theorem exp_imp_id_partial (strict : Bool) (id : Bytes) (c : Commit) (rev : Rev)
     (himp : importCommit strict id c = .ok rev) (hcanon : Canon c = true) :
     exportCommit rev c.tree = .ok c := by
   simp only [Canon, Bool.and_eq_true, decide_eq_true_eq, List.all_eq_true] at hcanon
-  obtain ⟨⟨⟨⟨⟨⟨⟨hmsg, hfalse⟩, hfc⟩, hfa⟩, hfirst⟩, hsig⟩, hpar⟩, hextra⟩ := hcanon
+  obtain ⟨⟨⟨⟨⟨⟨hmsg, hfc⟩, hfa⟩, hfirst⟩, hsig⟩, hpar⟩, hextra⟩ := hcanon
   unfold importCommit at himp
   cases hd : importDecode c with
   | error e => simp [hd] at himp
@@ -52,7 +51,7 @@ theorem exp_imp_id_partial (strict : Bool) (id : Bytes) (c : Commit) (rev : Rev)
       obtain ⟨hls, hun⟩ := importExtra_ok strict c.extra ls un hextra hx
       subst hun
       simp only [ne_eq, not_true_eq_false, false_and, if_false, Except.ok.injEq] at himp
-      obtain ⟨k, hk, rfl, rfl, rfl⟩ := importDecode_ok hfalse hd
+      obtain ⟨k, hk, rfl, rfl, rfl⟩ := importDecode_ok hd
       obtain ⟨m, hm⟩ := Option.isSome_iff_exists.mp hmsg
       subst himp
       have hparents := exportParents_map c.parents (fun p hp => by simpa using hpar p hp)
@@ -176,24 +175,34 @@ theorem person_ident_witness :
     roundTrip true (bs "1234") { wCommit with author := bs "foo>" } = .ok (.error .value) := by
   decide
 
-/-- finding `git-extra-line-boundary`: a form feed in an `HG:rename-source` value
-is accepted by import, export raises (ValueError in `l.split(" ", 1)`) -/
-theorem git_extra_line_boundary_witness :
-    roundTrip true (bs "1234") { wCommit with extra := [(bs "HG:rename-source", [97, 12, 98])] } =
-      .ok (.error .value) := by
+/-- finding `git-extra-embedded-newline`: a continuation line in an
+`HG:rename-source` value is accepted by import; export raises (ValueError in
+`l.split(" ", 1)`) or, when the continuation contains a space, invents a header -/
+theorem git_extra_embedded_newline_witness :
+    roundTrip true (bs "1234") { wCommit with extra := [(bs "HG:rename-source", [97, 10, 98])] } =
+      .ok (.error .value) ∧
+    roundTrip true (bs "1234") { wCommit with extra := [(bs "HG:rename-source", [97, 10, 98, 32, 99])] } =
+      .ok (.ok { wCommit with extra := [(bs "HG:rename-source", [97]), ([98], [99])] }) := by
+  decide
+
+/-- (fixed in b3a449a) the other `str.splitlines()` boundaries — form feed, CR,
+U+2028 … — in an extra-header value now round-trip -/
+theorem git_extra_formfeed_roundtrips :
+    roundTrip true (bs "1234")
+        { wCommit with extra := [(bs "HG:rename-source", [97, 12, 98, 13, 0xe2, 0x80, 0xa8])] } =
+      .ok (.ok { wCommit with extra := [(bs "HG:rename-source", [97, 12, 98, 13, 0xe2, 0x80, 0xa8])] }) := by
   decide
 
 theorem decodeUsing_latin1_ok (c : Commit) : ∃ d, decodeUsing .latin1 c = .ok d := by
   unfold decodeUsing
   cases c.message <;> simp [decodable]
 
-/-- finding `encoding-false`: EVERY commit with `encoding false` (and no extra
+/-- (fixed in b3a449a) EVERY `Canon` commit with `encoding false` (and no extra
 headers) is accepted by import — the utf-8/latin-1 fallback cannot fail — and
-its export raises LookupError as soon as the parents are well-formed -/
-theorem encoding_false_witness (strict : Bool) (id : Bytes) (c : Commit)
-    (he : c.encoding = some (bs "false")) (hx : c.extra = [])
-    (hpar : ∀ p ∈ c.parents, p.length = 40) :
-    ∃ rev, importCommit strict id c = .ok rev ∧ exportCommit rev c.tree = .error .lookup := by
+round-trips -/
+theorem encoding_false_roundtrips (strict : Bool) (id : Bytes) (c : Commit)
+    (he : c.encoding = some (bs "false")) (hx : c.extra = []) (hcanon : Canon c = true) :
+    ∃ rev, importCommit strict id c = .ok rev ∧ exportCommit rev c.tree = .ok c := by
   have hd : ∃ d, importDecode c = .ok d := by
     unfold importDecode decodeFallback
     rw [he]
@@ -206,20 +215,15 @@ theorem encoding_false_witness (strict : Bool) (id : Bytes) (c : Commit)
       exact ⟨(d, some (bs "latin1")), by simp [hl, Except.map]⟩
   obtain ⟨⟨⟨cm, au, msg⟩, impl⟩, hd⟩ := hd
   have hxx : importExtra strict c.extra = .ok ([], []) := by rw [hx]; rfl
-  have hres : resolve (bs "false") = none := by decide
   cases hi : importCommit strict id c with
+  | ok rev => exact ⟨rev, rfl, exp_imp_id_partial strict id c rev hi hcanon⟩
   | error e =>
     unfold importCommit at hi
     simp only [hd, hxx] at hi
     simp at hi
-  | ok rev =>
-    refine ⟨rev, rfl, ?_⟩
-    unfold importCommit at hi
-    simp only [hd, hxx] at hi
-    simp only [ne_eq, not_true_eq_false, false_and, if_false, Except.ok.injEq] at hi
-    subst hi
-    unfold exportCommit
-    simp only [exportParents_map c.parents hpar, importProps, he, encName, hres]
+
+/-- non-vacuity of `encoding_false_roundtrips` -/
+example : Canon { wCommit with encoding := some (bs "false"), extra := [] } = true := by decide
 
 /-- **Canonical identifiers are fixed points.**  `name <email>` with no `<` in the
 name and no `<`/`>` in the email is returned unchanged (the name may contain `>`). -/
